@@ -39,6 +39,7 @@ type vhM struct {
 
 	initialHeight uint64
 	hsch          vkit.HashScheme
+	unbufferedOut bool     // view outputs unbuffered, as tmengine wires them (consumers can stall)
 	crash         *vhCrash // non-nil: stores are wrapped and "the process stops" after the k-th store write
 }
 
@@ -140,6 +141,10 @@ func vhNewMirrorHS(keys []gcrypto.PubKey, pows []uint64, initialHeight uint64, h
 func (e *vhM) restart() error {
 	e.gossipOut = make(chan tmelink.NetworkViewUpdate, 64)
 	e.smOut = make(chan tmeil.StateMachineRoundView, 64)
+	if e.unbufferedOut {
+		e.gossipOut = make(chan tmelink.NetworkViewUpdate)
+		e.smOut = make(chan tmeil.StateMachineRoundView)
+	}
 	e.smIn = make(chan tmeil.StateMachineRoundEntrance)
 	e.replayIn = make(chan tmelink.ReplayedHeaderRequest)
 	e.fetchReq = make(chan tmelink.ProposedHeaderFetchRequest, 8)
@@ -328,3 +333,18 @@ func vhOffer(n int, tag byte) (gcrypto.SparseSignature, int) {
 func newStores(hs vkit.HashScheme) (*tmmemstore.MirrorStore, *tmmemstore.CommittedHeaderStore, *tmmemstore.RoundStore, *tmmemstore.ValidatorStore) {
 	return tmmemstore.NewMirrorStore(), tmmemstore.NewCommittedHeaderStore(), tmmemstore.NewRoundStore(), tmmemstore.NewValidatorStore(hs)
 }
+
+// vhValidSigs builds sparse signatures of the given signers, assumed authentic.
+func vhValidSigs(keys []gcrypto.PubKey, content []byte, signers int, tag byte) []gcrypto.SparseSignature {
+	var sigs []gcrypto.SparseSignature
+	for i := range keys {
+		if signers&(1<<uint(i)) == 0 {
+			continue
+		}
+		sig := vkit.Sig(byte(i), tag)
+		verifrt.Assume(keys[i].Verify(content, sig))
+		sigs = append(sigs, gcrypto.SparseSignature{KeyID: vkit.KeyID(i), Sig: sig})
+	}
+	return sigs
+}
+
